@@ -405,6 +405,10 @@ VM_WRAPS = ["field"] * 4 + ["vec", "vec", "option", "option", "hashmap-value", "
 VM_PLAIN = [t_path("String"), t_path("u32"), t_path("bool"), t_path("Vec", [t_path("String")]), t_path("Option", [t_path("u8")])]
 VM_LAYOUTS = ["unit-first", "unit-middle", "unit-last", "no-unit", "units-around", "free"]
 VM_SKIPS = [m_list("typeshare", [m_path("skip")]), m_list("serde", [m_path("skip")])]
+# name coincidences (no serde renames anywhere): what a variant / a field of a tagged enum is named like
+VM_GENERIC_COINCIDENCE = True
+VM_COINCIDENCES = ["variant-like-own-reference"] * 3 + ["variant-like-other-item", "variant-like-other-item", "variant-like-own-enum",
+                                                        "field-like-own-type", "field-like-own-type", "field-like-other-item"]
 
 
 def vm_how(wrap):
@@ -422,6 +426,7 @@ class VariantMix:
     def __init__(self, rng, thorough):
         self.rng, self.thorough = rng, thorough
         self.items, self.names, self.kinds, self.edges, self.layouts = [], [], [], [], []
+        self.coincidences = []          # (kind of coincidence, kind of variant, the name, index of the enum)
         self.ts = [m_path("typeshare")]
         self.recursive = rng.random() < 0.08
         self.ghost_used = False
@@ -461,6 +466,10 @@ class VariantMix:
         i = self.name(where)
         if kind == "unit-enum":
             vs = [{"attrs": [], "ident": w, "fields": ("unit",)} for w in rng.sample(VM_VARIANT_WORDS, rng.randint(1, 3))]
+            if rng.random() < 0.25:
+                like = rng.choice(self.names)              # a variant of a unit enum named like a definition of the file (or the enum)
+                vs[rng.randrange(len(vs))]["ident"] = like
+                self.coincidences.append(("variant-like-own-enum" if like == self.names[i] else "variant-like-other-item", "unit-enum variant", like, i))
             return self.add(i, "unit-enum", {"kind": "enum", "attrs": list(self.ts), "ident": self.names[i], "generics": [], "variants": vs})
         if kind == "alias-leaf":
             return self.add(i, "alias-leaf", {"kind": "alias", "attrs": list(self.ts), "ident": self.names[i], "generics": [], "ty": rng.choice(VM_PLAIN[:2])})
@@ -473,7 +482,11 @@ class VariantMix:
         if depth < 2 and rng.random() < 0.4:
             j, w = self.target(depth + 1), rng.choice(VM_WRAPS)
             self.edges.append((i, j, "struct field (%s)" % vm_how(w)))
-            fs.insert(rng.randint(0, 1), field([], "deeper", ref_type(w, self.names[j])))
+            fname = "deeper"
+            if rng.random() < 0.3:
+                fname = self.names[j]                  # a struct field named exactly like the type it mentions
+                self.coincidences.append(("struct-field-like-own-type", "struct", fname, i))
+            fs.insert(rng.randint(0, 1), field([], fname, ref_type(w, self.names[j])))
             leaf = False
         return self.add(i, "struct-leaf" if leaf else "struct", {"kind": "struct", "attrs": list(self.ts), "ident": self.names[i], "generics": [], "fields": ("named", fs)})
 
@@ -522,19 +535,27 @@ class VariantMix:
         slots = [k for k, kd in enumerate(kinds) if kd in ("newtype", "struct")]
         forced_at = rng.choice(slots) if forced is not None else None
 
-        def reference(k, what):
+        # name coincidences: in about half of the enums some variants / fields are named like definitions of the file
+        coincide = rng.random() < 0.5
+        taken = set()
+        mine = []                       # (slot of the field or None, definition referred to) of the variant being built
+
+        def reference(k, what, slot=None):
             nonlocal forced
             w = rng.choice(VM_WRAPS)
             if forced is not None and k == forced_at:
                 j, forced = forced, None
             else:
                 j = self.target(depth)
-            self.edges.append((i, j, "%s of variant #%d `%s` (%s; declared after %d unit, %d payload and %d skipped variant(s))"
-                               % (what, k + 1, words[k], vm_how(w), shape.count("unit"),
+            mine.append((slot, j))
+            self.edges.append((i, j, "%s of variant #%d `\0V%d` (%s; declared after %d unit, %d payload and %d skipped variant(s))"
+                               % (what, k + 1, i, vm_how(w), shape.count("unit"),
                                   sum(s != "unit" and not s.startswith("skipped") for s in shape), sum(s.startswith("skipped") for s in shape))))
             return ref_type(w, self.names[j])
         for k, (kd, word) in enumerate(zip(kinds, words)):
             attrs = [rng.choice(VM_SKIPS)] if kd.startswith("skipped") else []
+            del mine[:]
+            first_edge = len(self.edges)
             if kd in ("unit", "skipped-unit"):
                 fs = ("unit",)
             elif kd == "newtype":
@@ -550,10 +571,39 @@ class VariantMix:
             else:
                 fnames = rng.sample(VM_FIELD_WORDS, rng.randint(1, 3))
                 refs = set(rng.sample(range(len(fnames)), rng.randint(1, len(fnames)))) if kd == "struct" else set()
-                fl = [field([], fn, reference(k, "field `%s`" % fn) if x in refs else rng.choice(VM_PLAIN)) for x, fn in enumerate(fnames)]
+                fl = [field([], fn, reference(k, "field `\0F%d.%d`" % (i, x), slot=x) if x in refs else rng.choice(VM_PLAIN)) for x, fn in enumerate(fnames)]
+                co = rng.choice(VM_COINCIDENCES) if coincide and rng.random() < 0.6 else None
+                if co in ("field-like-own-type", "field-like-other-item"):
+                    own = [(x, j) for x, j in mine if x is not None]
+                    if co == "field-like-own-type" and own:
+                        x, j = rng.choice(own)
+                    else:
+                        co, x, j = "field-like-other-item", rng.randrange(len(fl)), rng.randrange(len(self.names))
+                    if self.names[j] not in fnames:
+                        fnames[x] = fl[x]["ident"] = self.names[j]
+                        self.coincidences.append((co, kd, self.names[j], i))
+                for x, fn in enumerate(fnames):
+                    for e in range(first_edge, len(self.edges)):
+                        self.edges[e] = self.edges[e][:2] + (self.edges[e][2].replace("\0F%d.%d`" % (i, x), fn + "`"),)
                 if rng.random() < 0.25:
                     fl.insert(rng.randint(0, len(fl)), field([rng.choice(VM_SKIPS)], "hidden", self.skipped_type()))
                 fs = ("named", fl)
+            co = rng.choice(VM_COINCIDENCES) if coincide and rng.random() < 0.6 else None
+            if co and co.startswith("variant"):
+                if co == "variant-like-own-reference" and mine:
+                    like = self.names[rng.choice(mine)[1]]
+                elif co == "variant-like-own-enum":
+                    like = self.names[i]
+                else:
+                    co, like = "variant-like-other-item", rng.choice(self.names)
+                    if like == self.names[i]:
+                        co = "variant-like-own-enum"
+                if like not in taken:
+                    word = like
+                    self.coincidences.append((co, kd, like, i))
+            taken.add(word)
+            for e in range(first_edge, len(self.edges)):
+                self.edges[e] = self.edges[e][:2] + (self.edges[e][2].replace("\0V%d`" % i, word + "`"),)
             variants.append({"attrs": attrs, "ident": word, "fields": fs})
             shape.append(kd)
         if recursive:
@@ -561,7 +611,17 @@ class VariantMix:
             shape.append("newtype-self")
         attrs = list(self.ts) + [m_list("serde", [m_nv("tag", lit_s("t")), m_nv("content", lit_s("c"))])]
         self.layouts.append((layout, tuple(shape)))
-        return self.add(i, "tagged-enum", {"kind": "enum", "attrs": attrs, "ident": self.names[i], "generics": [], "variants": variants})
+        generics = []
+        leaves = [n for n, k in zip(self.names, self.kinds) if k in ("struct-leaf", "unit-enum", "alias-leaf")]
+        if VM_GENERIC_COINCIDENCE and coincide and leaves and rng.random() < 0.12:
+            # a generic parameter named like a definition of the file (one that refers to nothing): inside the enum the name means
+            # the parameter, so no order is demanded between the two definitions
+            like = rng.choice(leaves)
+            generics = [("ty", like)]
+            fs = ("unnamed", [field([], None, t_path(like))]) if rng.random() < 0.5 else ("named", [field([], "held", t_path("Vec", [t_path(like)]))])
+            variants.insert(rng.randint(0, len(variants)), {"attrs": [], "ident": "Held", "fields": fs})
+            self.coincidences.append(("generic-parameter-like-other-item", "enum", like, i))
+        return self.add(i, "tagged-enum", {"kind": "enum", "attrs": attrs, "ident": self.names[i], "generics": generics, "variants": variants})
 
     def puller(self, e):
         """an item that refers to the enum `e` (and is therefore written after it, wherever its own kind and name would put it)"""
@@ -620,6 +680,13 @@ def variant_mix_part(check):
     payload position (directly, through Vec / Option / HashMap / array / slice / Box).  What is referred to: structs, unit
     enums, tagged enums (again with mixed variants) and aliases, two levels deep, with names that sort before and after the
     enum's; aliases, alias chains, structs and other tagged enums refer to the enum and pull it forward.  All six languages.
+    Name coincidences (no serde renames involved): in about half of the enums, variants of every kind (unit, newtype, struct,
+    skipped; also the variants of plain unit enums) are named like a definition one of their own fields / payloads mentions,
+    like any other definition of the file or like the enum itself; fields of struct variants and of structs are named like the
+    type they hold or like another definition; a generic parameter of the enum is named like a definition of the file that
+    refers to nothing (inside the enum the name then means the parameter: no order is demanded for it).  The namesakes sort
+    before and after the enum.  A name in the variant / field namespace changes nothing about what the types refer to: the
+    demands below stay exactly the same.
     Demanded of the implementation's output: every definition of the program is written exactly once, and (TS / Python /
     Kotlin / Swift / Go, acyclic programs - all but the few where an enum boxes itself) after every definition it refers to
     through a live variant, field or alias target; skipped variants and fields demand nothing.  Byte-exact against the model."""
@@ -642,6 +709,9 @@ def variant_mix_part(check):
             check.count("variant-mix-edge %s -> %s (%s name)" % (p.kinds[i].replace("-leaf", ""), p.kinds[j].replace("-leaf", ""),
                                                                  "later" if p.names[j] > p.names[i] else "earlier"))
         check.count("variant-mix-program-" + ("recursive" if p.recursive else "acyclic"))
+        for co, kd, like, i in p.coincidences:
+            check.count("variant-mix-coincidence %s (%s%s)" % (co, kd, "" if like == p.names[i] else
+                                                                "; the namesake sorts %s the definition" % ("after" if like > p.names[i] else "before")))
         for lang in ALL_LANGS:
             cfg = {"package": "proto" if lang == "go" else "com.example", "type_mappings": {}}
             m, r, texts = l2.requests(lang, cfg, [{"crate": "", "file_name": "o", "path": "src/lib.rs", "file": f}], g)
@@ -703,5 +773,6 @@ def run(check):
                    "of variant kinds (unit variants first / in the middle / last / around / absent, newtype and struct variants with "
                    "and without references, skipped variants and fields in between), references from each payload position to "
                    "structs, unit enums, tagged enums and aliases named before and after the enum, pulled forward by aliases, alias "
-                   "chains, structs and other enums, six languages: each definition exactly once and (all but Scala, acyclic "
-                   "programs) after what it refers to")
+                   "chains, structs and other enums, with variants / fields / generic parameters named like definitions of the file "
+                   "(the one the variant's own fields mention, another one, the enum itself), six languages: each definition exactly "
+                   "once and (all but Scala, acyclic programs) after what it refers to")
